@@ -1,0 +1,70 @@
+//! Verification hooks. Compiled only with `--cfg mimium_verif`; add-only.
+//!
+//! A thread-local event log that instrumented sites append to while a
+//! recording is active. Nothing is recorded unless `start()` was called on
+//! the current thread, so the hooks are inert for ordinary users of a
+//! `mimium_verif` build as well.
+use std::cell::RefCell;
+
+/// One recorded event: a tag, a kind and up to five integer fields whose
+/// meaning depends on the tag (documented at each emitting site).
+#[derive(Debug, Clone, PartialEq)]
+pub struct Ev {
+    pub tag: &'static str,
+    pub kind: &'static str,
+    pub a: i64,
+    pub b: i64,
+    pub c: i64,
+    pub d: i64,
+    pub e: i64,
+}
+
+thread_local! {
+    static LOG: RefCell<Option<Vec<Ev>>> = const { RefCell::new(None) };
+    static STRICT: RefCell<bool> = const { RefCell::new(false) };
+}
+
+/// Begin recording on this thread (clears previous events).
+pub fn start() {
+    LOG.with(|l| *l.borrow_mut() = Some(Vec::new()));
+}
+/// Stop recording and return the events.
+pub fn take() -> Vec<Ev> {
+    LOG.with(|l| l.borrow_mut().take().unwrap_or_default())
+}
+/// Return the events recorded so far and keep recording.
+pub fn drain() -> Vec<Ev> {
+    LOG.with(|l| {
+        l.borrow_mut()
+            .as_mut()
+            .map(std::mem::take)
+            .unwrap_or_default()
+    })
+}
+pub fn is_recording() -> bool {
+    LOG.with(|l| l.borrow().is_some())
+}
+/// When strict, instrumented unchecked accesses that would leave their
+/// storage panic with a message starting with `mimium_verif:` instead of
+/// performing the access.
+pub fn set_strict(on: bool) {
+    STRICT.with(|s| *s.borrow_mut() = on);
+}
+pub fn is_strict() -> bool {
+    STRICT.with(|s| *s.borrow())
+}
+pub fn emit(tag: &'static str, kind: &'static str, a: i64, b: i64, c: i64, d: i64, e: i64) {
+    LOG.with(|l| {
+        if let Some(v) = l.borrow_mut().as_mut() {
+            v.push(Ev {
+                tag,
+                kind,
+                a,
+                b,
+                c,
+                d,
+                e,
+            });
+        }
+    });
+}
